@@ -485,6 +485,11 @@ fn one_line(string: &str) -> String {
 
 fn newline_if_body(core: &Core, ind: usize) -> String {
     match core {
+        // A body of which nothing remains (only comments) still needs a statement in Python.
+        Core::Block { statements } if statements.iter().all(|s| s == &Core::Empty) => {
+            format!("\n{}pass", indent(ind + 1))
+        }
+        Core::Empty => format!("\n{}pass", indent(ind + 1)),
         Core::Block { .. } => format!("\n{}", to_py(core, ind + 1)),
         _ => format!("\n{}{}", indent(ind + 1), to_py(core, ind + 1)),
     }
